@@ -64,7 +64,75 @@ func (p *Prog) loadContracts() []string {
 			diags = append(diags, p.parseContractFile(relPkg(pkg.PkgPath), f, string(b))...)
 		}
 	}
+	p.autoLockEntries()
 	return diags
+}
+
+// autoLockEntries: in a package that declares guarded fields, every exported method of a struct type that owns a
+// mutex is an entry point other goroutines may call with no lock held. A method without a written contract gets
+// the default entry contract (lock free on entry, released on return), so that a method added later is verified
+// against the lock discipline as well (its accesses to guarded fields must happen inside its own critical section).
+// Methods of types without a mutex (ExchangeToPrice) are checked where they are inlined into their callers.
+func (p *Prog) autoLockEntries() {
+	p.AutoEntries = nil
+	if len(p.Guarded) == 0 {
+		return
+	}
+	pkgs := map[string]bool{}
+	for g := range p.Guarded {
+		pkgs[g[:strings.Index(g, ".")]] = true
+	}
+	for _, k := range p.sortedFuncKeys() {
+		fn := p.Funcs[k]
+		if fn == nil || fn.Synthetic != "" || fn.Parent() != nil || len(fn.Blocks) == 0 || !productionFunc(k) {
+			continue
+		}
+		recv := fn.Signature.Recv()
+		if recv == nil || !pkgs[relPkg(fnPkgPath(fn))] || !fn.Object().Exported() {
+			continue
+		}
+		t := recv.Type()
+		star := ""
+		if pt, ok := t.(*types.Pointer); ok {
+			t = pt.Elem()
+			star = "*"
+		}
+		nt, ok := types.Unalias(t).(*types.Named)
+		if !ok {
+			continue
+		}
+		stt, ok := nt.Underlying().(*types.Struct)
+		if !ok {
+			continue
+		}
+		owns := false
+		for i := 0; i < stt.NumFields(); i++ {
+			ft := types.TypeString(stt.Field(i).Type(), nil)
+			if ft == "sync.Mutex" || ft == "sync.RWMutex" {
+				owns = true
+			}
+		}
+		if !owns {
+			continue
+		}
+		if _, has := p.Contracts[k]; has {
+			continue
+		}
+		var ps []string
+		for i := 1; i < len(fn.Params); i++ {
+			ps = append(ps, fmt.Sprintf("p%d", i))
+		}
+		var rs []string
+		for i := 0; i < fn.Signature.Results().Len(); i++ {
+			rs = append(rs, fmt.Sprintf("r%d", i))
+		}
+		text := fmt.Sprintf("//@ func (self %s%s).%s(%s) (%s)\n//@ requires [lock_free_on_entry] !locked()\n//@ ensures [lock_released_on_return] !locked()\n",
+			star, nt.Obj().Name(), fn.Name(), strings.Join(ps, ", "), strings.Join(rs, ", "))
+		p.parseContractFile(relPkg(fnPkgPath(fn)), "<default entry contract>", text)
+		if c := p.Contracts[k]; c != nil {
+			p.AutoEntries = append(p.AutoEntries, k)
+		}
+	}
 }
 
 func (p *Prog) parseContractFile(rel, file, src string) []string {
@@ -262,6 +330,13 @@ func (p *Prog) parseContractFile(rel, file, src string) []string {
 				continue
 			}
 			p.Macros[name] = &Macro{Name: name, Params: splitNames(rest[lp+1 : rp]), Body: ex}
+		case "guarded":
+			// guarded Type.field   (package-level): the field of *Type is read or written only with the lock held
+			if strings.Count(rest, ".") != 1 {
+				fail("guarded: expected Type.field")
+				continue
+			}
+			p.Guarded[rel+"."+rest] = true
 		default:
 			// free text line (documentation) is allowed after "note"
 			if word != "note" {
@@ -1116,6 +1191,11 @@ func (e *Engine) evalCall(y *ECall, env *evalEnv) Val {
 			as = append(as, arg(i).S)
 		}
 		return Val{S: app(y.Fn, as...), T: specInt}
+	case "locked":
+		// locked(): the executing goroutine holds the lock guarding the package's shared state (ghost flag set by
+		// sync.Mutex/RWMutex Lock, cleared by Unlock; the identity of the mutex instance is not tracked)
+		e.initHeap("lock_held", "Bool")
+		return Val{S: e.heap(env.st, "lock_held", "Bool"), T: specBool}
 	case "called":
 		if id, ok := y.Args[0].(*EIdent); ok {
 			v, _ := e.specConst("called_"+mangle(id.Name), env)
